@@ -21,6 +21,7 @@ CONTRACT_DIR = os.path.join(os.path.dirname(HERE), "contracts")
 class Engine(object):
     def __init__(self, repo_root=None, contract_files=None):
         self.repo = Repo(repo_root)
+        os.environ["PYVC_REPO_ROOT"] = self.repo.root  # contract files that derive contracts mechanically from the source read it
         self.contracts = {}
         self.fields = {}
         self.default_list = {}
